@@ -301,3 +301,79 @@ Proof.
       split; [by rewrite core_lin, Hbody, close_body_lin|]. rewrite Hpv. cbn. eauto.
     + intros k st m Hk Hb. pose proof (bufs_empty_init p k st Hk). congruence.
 Qed.
+
+(* ------------------------------------------------------------------ the synchronous polarized mode *)
+(* A synchronous step from a configuration with empty buffers is one asynchronous step, or — a
+   rendezvous — the sender's asynchronous step followed by the receiver's
+   (AsyncSync.sync_step_async); the invariant of the core fragment holds in between
+   (TopoStep.inv_step_async).  So a Sync step is matched by at most two steps of Sax.v. *)
+Section RunsMd.
+Variable D : tenv.
+Variable F : list fundef.
+Variable teq : sty -> sty -> Prop.
+Hypothesis Hteq : teq_laws D teq.
+Hypothesis HF : funs_typed D F teq.
+Hypothesis HFc : core_funs F.
+Hypothesis HFa : funs_aff F.
+
+Lemma refines_sax_step_md md c ch c' :
+  is_np md = false -> TopoStep.Inv D F teq c -> (md = Sync -> bufs_empty c) -> step md D F c ch = SStep c' ->
+  exists ls, sax_steps F false (α c) ls (α c') /\ labels c' = labels c ++ ls.
+Proof.
+  intros Hnp HI Hb Hs. destruct md; [| |done].
+  - destruct (async_step_run D F c ch c' Hs) as [self ->].
+    apply (refines_sax D F c self c'); [by apply (inv_sax_inv D F teq Hteq HF)|done].
+  - destruct (sync_step_async D F c ch c' (Hb eq_refl) Hs) as [(p & -> & H1)|(s & r & c1 & -> & H1 & H2)].
+    + apply (refines_sax D F c p c'); [by apply (inv_sax_inv D F teq Hteq HF)|done].
+    + pose proof (inv_step_async D F teq Hteq HF c (Run s) c1 HFc HFa HI H1) as HI1.
+      destruct (refines_sax D F c s c1 (inv_sax_inv D F teq Hteq HF c HI) H1) as (l1 & Hs1 & Hl1).
+      destruct (refines_sax D F c1 r c' (inv_sax_inv D F teq Hteq HF c1 HI1) H2) as (l2 & Hs2 & Hl2).
+      exists (l1 ++ l2). split; [by eapply sax_steps_app|]. by rewrite Hl2, Hl1, app_assoc.
+Qed.
+
+Theorem refines_sax_core_md md c0 tr c :
+  is_np md = false -> TopoStep.Inv D F teq c0 -> (md = Sync -> bufs_empty c0) -> steps md D F c0 tr c ->
+  exists ls, sax_steps F false (α c0) ls (α c) /\ labels c = labels c0 ++ ls.
+Proof.
+  intros Hnp HI Hb Hs. induction Hs as [c|c ch c1 tr c2 Hstep _ IH].
+  - exists []. split; [by apply sax_refl|by rewrite app_nil_r].
+  - destruct (refines_sax_step_md md c ch c1 Hnp HI Hb Hstep) as (l1 & Hs1 & Hl1).
+    destruct (inv_step D F teq Hteq HF HFc HFa md c ch c1 Hnp HI Hb Hstep) as [HI1 Hb1].
+    destruct (IH HI1 Hb1) as (l2 & Hs2 & Hl2).
+    exists (l1 ++ l2). split; [by eapply sax_steps_app|]. by rewrite Hl2, Hl1, app_assoc.
+Qed.
+End RunsMd.
+
+(* both polarized modes *)
+Theorem prints_admitted_tc_md md p p' :
+  is_np md = false ->
+  typecheck p = Accept p' -> in_fragment p' -> prog_syn_ok p = true -> rt_syn_ok p = true ->
+  init_linear p' ->
+  forall fuel pick, exists C',
+    sax_steps (p_funs p') false (sax_init p')
+      (labels (res_config (exec_run fuel pick md (p_types p') (p_funs p') (init_config p')))) C'.
+Proof.
+  intros Hnp Ha Hf PS RS Hi fuel pick.
+  pose proof (tc_annotations_typed_rt p p' Ha PS RS Hf) as Hst.
+  pose proof Hi as (HFc & HFa & _).
+  assert (TopoStep.Inv (p_types p') (p_funs p') (teq_rt (p_types p')) (init_config p')) as HI0.
+  { destruct Hi as (_ & _ & Ht & Hl & Hc). split; try done.
+    - exists (init_delta p'). apply initial_typed; [apply teq_rt_laws|exact Hst].
+    - apply ns_ok_init. }
+  rewrite <- (exec_trace_exec_run md (p_types p') (p_funs p') fuel pick (init_config p') []).
+  destruct (exec_trace fuel pick md (p_types p') (p_funs p') (init_config p') []) as [r tr] eqn:Htr. cbn [fst].
+  apply exec_trace_run in Htr as (es & _ & Hrun).
+  destruct (refines_sax_core_md _ _ _ (teq_rt_laws _) (proj1 Hst) HFc HFa md _ _ _ Hnp HI0
+              (fun _ => bufs_empty_init p') Hrun) as (ls & Hs & Hl).
+  exists (α (res_config r)). rewrite Hl. change (labels (init_config p')) with (@nil string). cbn.
+  eapply sax_steps_perm; [symmetry; apply alpha_init|done].
+Qed.
+
+Theorem prints_admitted_parsed_md md txt p p' :
+  is_np md = false ->
+  parse_string txt = POk p -> typecheck p = Accept p' -> in_fragment p' -> rt_syn_ok p = true ->
+  init_linear p' ->
+  forall fuel pick, exists C',
+    sax_steps (p_funs p') false (sax_init p')
+      (labels (res_config (exec_run fuel pick md (p_types p') (p_funs p') (init_config p')))) C'.
+Proof. intros Hnp Hp Ha Hf RS. exact (prints_admitted_tc_md md p p' Hnp Ha Hf (parse_syn_ok _ _ Hp) RS). Qed.
